@@ -386,6 +386,26 @@ class BuiltinMixin:
     m_dict_items = m_dict_keys = m_dict_values
 
     # ------------------------------------------------------------------ list methods
+    def m_str_split(self, st, s_, pos, kw, node):
+        """str.split(sep[, maxsplit]) on opaque strings: a fresh list of strings given by uninterpreted functions of (s, sep, maxsplit);
+        at least one item; with maxsplit n at most n+1 items; when sep occurs in s at least two items"""
+        from .smt import split_len, split_item
+        sep = pos[0].t if pos else VNone
+        mx = pos[1].t if len(pos) > 1 else Val.int(z3.IntVal(-1))
+        ln = split_len(s_.t, sep, mx)
+        i = z3.Const("i!sp", I)
+        items = fresh("split_items", IV)
+        st.assume(z3.Select(items, 0) == split_item(s_.t, sep, mx, z3.IntVal(0)), z3.Select(items, 1) == split_item(s_.t, sep, mx, z3.IntVal(1)),
+                  z3.ForAll([i], z3.Select(items, i) == split_item(s_.t, sep, mx, i), patterns=[z3.Select(items, i)]))
+        a = st.new_list(items, ln)
+        st.assume(ln >= 1)
+        if len(pos) > 1:
+            st.assume(z3.Implies(Val.i(mx) >= 0, ln <= Val.i(mx) + 1))
+        if pos and strip_opt(pos[0].ty).kind == "str":
+            f = z3.Function("str_contains", Val, Val, B)
+            st.assume(z3.Implies(z3.And(f(s_.t, sep), Val.i(mx) != 0), ln >= 2))
+        return [Res(st, SV(vref(a), LIST(TSTR)))]
+
     def m_list_append(self, st, l, pos, kw, node):
         a = Val.a(l.t)
         st.trace.append(("append", l, pos[0]))
